@@ -182,6 +182,14 @@ class SBool(Sym):
         return 1 if bool(self) else 0
     __index__ = __int__
 
+    def __sub__(self, o): return self._asint() - o
+    def __rsub__(self, o): return o - self._asint()
+    def __neg__(self): return -self._asint()
+    def __lt__(self, o): return self._asint() < o
+    def __le__(self, o): return self._asint() <= o
+    def __gt__(self, o): return self._asint() > o
+    def __ge__(self, o): return self._asint() >= o
+
     def astype(self, dtype, *a, **k):
         if dtype in (bool,):
             return self
@@ -592,7 +600,11 @@ class SymCtx:
     def _h(cond):
         return hashlib.md5(cond.sexpr().encode()).hexdigest()[:8]
 
-    def branch(self, cond, aux=None):
+    def branch(self, cond, aux=None, raw=None):
+        # the decision hash is taken from the term as the program built
+        # it: z3.simplify may order commutative arguments by AST id,
+        # which depends on what earlier paths created
+        raw = cond if raw is None else raw
         cond = z3.simplify(cond)
         if z3.is_true(cond):
             return True
@@ -601,14 +613,14 @@ class SymCtx:
         self.stats.decisions += 1
         if self.pos < len(self.prefix):
             d, h, _ = self.prefix[self.pos]
-            if h != self._h(cond):
+            if h != self._h(raw):
                 raise ReplayMismatch(
                     f"decision {self.pos}: expected {h}, met {cond}")
             self.pos += 1
             self._add(cond if d else z3.Not(cond))
             self.trace.append((d, h, aux))
             return d
-        h = self._h(cond)
+        h = self._h(raw)
         can_t, m_t = self._sat(cond)
         can_f, m_f = self._sat(z3.Not(cond))
         self.pos += 1
@@ -631,6 +643,7 @@ class SymCtx:
         return d
 
     def realize_int(self, e):
+        raw_e = e
         e = z3.simplify(e)
         if z3.is_int_value(e):
             return e.as_long()
@@ -641,7 +654,7 @@ class SymCtx:
                 if v is None:
                     raise ReplayMismatch(
                         f"decision {self.pos}: expected realisation")
-                if self.branch(e == v, aux=v):
+                if self.branch(e == v, aux=v, raw=(raw_e == v)):
                     return v
                 continue
             if self.model is None:
@@ -663,7 +676,7 @@ class SymCtx:
                 else:
                     raise Budget('unknown in realisation')
             v = v.as_long()
-            if self.branch(e == v, aux=v):
+            if self.branch(e == v, aux=v, raw=(raw_e == v)):
                 return v
 
     # ---- declaring inputs
